@@ -591,6 +591,12 @@ func classifyFormatter(p *load.Program, et *ErrType, sh *TypeShape) {
 							}
 							if det || hreg[hc.Block()] {
 								nDet++
+								// a helper METHOD of the same receiver prints the receiver's fields itself
+								if h.Signature.Recv() != nil && len(x.Call.Args) > 0 && len(fn.Params) > 0 && identity(x.Call.Args[0]) == ssa.Value(fn.Params[0]) {
+									for _, a2 := range hc.Call.Args {
+										markFields(h, h, a2, sh.DetailFields, 0)
+									}
+								}
 							} else {
 								sh.HeadOther = append(sh.HeadOther, "printed by "+load.FnName(h))
 							}
@@ -612,7 +618,7 @@ func classifyFormatter(p *load.Program, et *ErrType, sh *TypeShape) {
 				if f != fn {
 					return
 				}
-				v := x.Results[0]
+				v := seeThroughReturn(x.Results[0])
 				// class of the returned value, recorded separately for returns inside and outside the p.Detail()
 				// region: the two renderings take different decisions only when the classes differ
 				// (`if !p.Detail() { return e.cause }; ...; return e.cause` is the same decision twice)
@@ -812,4 +818,36 @@ func dependsOnRecvField(fn *ssa.Function, v ssa.Value, fld *types.Var, seen map[
 		}
 	}
 	return false
+}
+
+// seeThroughReturn: v is the result of a module helper every return of which hands back one and the same of its
+// parameters (a shared formatting helper that ends with `return cause`): then v stands for the argument passed for it.
+func seeThroughReturn(v ssa.Value) ssa.Value {
+	call, ok := v.(*ssa.Call)
+	if !ok || call.Call.IsInvoke() {
+		return v
+	}
+	h := sx.Callee(call)
+	if h == nil || h.Blocks == nil || call.Parent() == nil || h.Pkg != call.Parent().Pkg || sx.Exported(h) {
+		return v
+	}
+	idx := -1
+	for _, r := range sx.Returns(h) {
+		if len(r.Results) != 1 {
+			return v
+		}
+		prm, isParam := identity(r.Results[0]).(*ssa.Parameter)
+		if !isParam {
+			return v
+		}
+		j := paramIndex(h, prm)
+		if idx >= 0 && j != idx {
+			return v
+		}
+		idx = j
+	}
+	if idx < 0 || idx >= len(call.Call.Args) {
+		return v
+	}
+	return call.Call.Args[idx]
 }
